@@ -198,6 +198,11 @@ func TouchesDropBox(fileRoot, fullPath string) bool {
 func CalcTotalSize(filePath string) ([]byte, error) {
 	var totalSize uint32
 	err := filepath.Walk(filePath, func(path string, info os.FileInfo, err error) error {
+		// An entry below the folder that was removed or renamed since its directory was read (an upload that completes, a
+		// delete by another client) is left out; the folder itself must exist.
+		if errors.Is(err, os.ErrNotExist) && path != filePath {
+			return nil
+		}
 		if err != nil {
 			return err
 		}
@@ -226,6 +231,9 @@ func CalcItemCount(filePath string) ([]byte, error) {
 
 	// Walk the directory and count items
 	err := filepath.Walk(filePath, func(path string, info os.FileInfo, err error) error {
+		if errors.Is(err, os.ErrNotExist) && path != filePath {
+			return nil // as in CalcTotalSize
+		}
 		if err != nil {
 			return err
 		}
